@@ -199,38 +199,42 @@ def check_obj(obj, label: str, problems: List[Dict[str, Any]], counters: Dict[st
         if bytes(cp2) != want:
             problems.append({"kind": "copy-shares-storage", "what": label + " (source mutated)"})
     if is_msg:
-        hcls = get_header_cls()
+      for hcls in (get_header_cls(), get_header_cls(True)):
+        tc = hcls is not get_header_cls()
         for ver, ok in ((0, True), (obj.type_hash, True), (obj.type_hash ^ 1, False), (0xFFFFFFFF if obj.type_hash != 0xFFFFFFFF else 1, False)):
-            h = hcls()
-            h.msg_type = obj.type_id
-            h.msg_count = 7
-            h.send_time = 1.5
-            h.recv_time = -0.0
-            h.src_mod_id = 12
-            h.dest_mod_id = 3
-            h.num_data_bytes = ctypes.sizeof(obj)
-            h.version = ver
-            m = Message(h, obj)
-            for minify in (False, True):
-                counters["message_roundtrips"] = counters.get("message_roundtrips", 0) + 1
-                try:
-                    m2 = Message.from_json(m.to_json(minify=minify))
-                    if not ok:
-                        problems.append({"kind": "foreign-version-accepted", "what": label, "version": hex(ver)})
-                        continue
-                    if bytes(m2.data) != want or bytes(m2.header) != bytes(h):
-                        problems.append({"kind": "message-roundtrip-differs", "what": label, "minify": minify})
-                except InvalidMessageDefinition:
-                    if ok:
-                        problems.append({"kind": "own-version-refused", "what": label, "version": hex(ver)})
-                except Exception as e:
-                    problems.append({"kind": "message-codec-raised", "what": label, "exc": f"{type(e).__name__}: {str(e)[:120]}"})
-            try:
-                mc = Message.copy(m)
-                if bytes(mc.data) != want or bytes(mc.header) != bytes(h) or mc.data is m.data:
-                    problems.append({"kind": "message-copy-differs", "what": label})
-            except Exception as e:
-                problems.append({"kind": "message-copy-raised", "what": label, "exc": f"{type(e).__name__}: {str(e)[:100]}"})
+              h = hcls()
+              h.msg_type = obj.type_id
+              h.msg_count = 7
+              h.send_time = 1.5
+              h.recv_time = -0.0
+              h.src_mod_id = 12
+              h.dest_mod_id = 3
+              h.num_data_bytes = ctypes.sizeof(obj)
+              h.version = ver
+              if tc:
+                  h.utc_seconds = 1700000000
+                  h.utc_fraction = 4242
+              m = Message(h, obj)
+              for minify in (False, True):
+                  counters["message_roundtrips"] = counters.get("message_roundtrips", 0) + 1
+                  try:
+                      m2 = Message.from_json(m.to_json(minify=minify))
+                      if not ok:
+                          problems.append({"kind": "foreign-version-accepted", "what": label, "version": hex(ver)})
+                          continue
+                      if bytes(m2.data) != want or bytes(m2.header) != bytes(h):
+                          problems.append({"kind": "message-roundtrip-differs", "what": label, "minify": minify, "header": "timecode" if tc else "plain"})
+                  except InvalidMessageDefinition:
+                      if ok:
+                          problems.append({"kind": "own-version-refused", "what": label, "version": hex(ver)})
+                  except Exception as e:
+                      problems.append({"kind": "message-codec-raised", "what": label, "exc": f"{type(e).__name__}: {str(e)[:120]}"})
+              try:
+                  mc = Message.copy(m)
+                  if bytes(mc.data) != want or bytes(mc.header) != bytes(h) or mc.data is m.data:
+                      problems.append({"kind": "message-copy-differs", "what": label, "header": "timecode" if tc else "plain"})
+              except Exception as e:
+                  problems.append({"kind": "message-copy-raised", "what": label, "exc": f"{type(e).__name__}: {str(e)[:100]}"})
 
 
 def _first_diff(a: bytes, b: bytes):
@@ -252,6 +256,8 @@ def load_classes(which: str):
         import pyrtma.core_defs as mod
     elif which == "valx":
         mod = valx.load()
+    elif which == "valx2":
+        mod = valx.load2()
     else:
         path = os.path.join(core.REPO, "tests", "test_msg_defs", "test_defs.py")
         name = "vf_test_defs_c10"
@@ -276,6 +282,13 @@ def work(item) -> Dict[str, Any]:
     which, cname, mode = item
     problems: List[Dict[str, Any]] = []
     counters: Dict[str, int] = {}
+    if which == "valx2":
+        # convert the first definition set's class of the same name first: nothing may be remembered by class NAME
+        for n, cls, is_msg in load_classes("valx"):
+            if n == cname:
+                o = cls()
+                fill(o, "mixed")
+                cls.from_dict(o.to_dict())
     for n, cls, is_msg in load_classes(which):
         if n != cname:
             continue
@@ -313,8 +326,10 @@ def run(tier: str) -> int:
                      "copies share no storage, foreign header versions refused. Distinct non-trivial = distinct (class, field "
                      "path or profile) objects whose image is not all zero.")
     items = []
-    for which in ("core", "valx", "tests"):
+    for which in ("core", "valx", "tests", "valx2"):
         for n, cls, is_msg in load_classes(which):
+            if which == "valx2" and not n.startswith(("V", "MDF_VAL")):
+                continue
             mode = "paths" if (which in ("core", "valx") or tier == "thorough") else "profiles"
             items.append((which, n, mode))
     res = core.pmap(work, core.shuffled(items, "c10"), chunksize=4)
@@ -326,7 +341,7 @@ def run(tier: str) -> int:
         for p in r["problems"]:
             w = p.get("what", "")
             detail = "embedded-nul" if "\\x00" in w and "char" not in w and p["kind"] == "roundtrip-differs" else ""
-            chk.violation(f"C10:{p['kind']}:{p.get('codec', '')}:{detail}", f"{p}", {"module": "vf.checks.c10", "item": [which, n, mode], "problem": p}, size=len(w))
+            chk.violation(f"C10:{p['kind']}:{p.get('codec', '')}:{detail}{p.get('header', '')}", f"{p}", {"module": "vf.checks.c10", "item": [which, n, mode], "problem": p}, size=len(w))
     chk.merge_counts(totals)
     chk.count("classes", len(items))
     chk.sample({"class": items[0][1], "mode": items[0][2], "profiles": list(PROFILES)})
